@@ -51,6 +51,28 @@ AUDITED_INDEX = {
     ("traverse_path::traverse_path", "byte_idx < len(node_index)"):
         "loop invariant first_bit_byte_index <= byte_idx <= len-1: byte_idx starts at len-1 (len >= 1 on this path) and only decreases while > first_bit_byte_index",
 }
+CURSOR_INV = ("Cursor invariant: the position is only advanced by successful reads (never beyond the slice) and by seek/set_position "
+              "calls that are guarded by an explicit remaining-length test")
+DECODER_AUDITS = {
+    ("serde::de_br::traverse_path_with_vec", "byte_idx < len(node_index)"):
+        "loop invariant first_bit_byte_index <= byte_idx <= len-1 (same loop as traverse_path; C18 compares the two)",
+    ("serde::de_br::traverse_path_with_vec", "arg_index < len(args)"):
+        "arg_index starts at len-1 (args non-empty on this path, else parsing_sexp) and only decreases, guarded by arg_index == 0",
+    ("serde::de_tree::parse_triples", "((pop(box_assume_init_into_vec_unsafe(new_uninit())) as Some).0 as SaveEnd).0 < len(new())"):
+        "SaveEnd(index) is pushed with index = r.len() immediately before r.push(pair): index < len(r) when it is popped",
+    ("serde::de_tree::parse_triples", "(((pop(box_assume_init_into_vec_unsafe(new_uninit())) as Some).0 as SaveEnd).0 AddWithOverflow 1).0 < len(new())"):
+        "tree_hashes has one entry per parsed object and the pair's left child is the object parsed right after it (index + 1 exists when SaveEnd runs)",
+    ("serde::de_tree::parse_triples", "((index_mut(new(), ((pop(box_assume_init_into_vec_unsafe(new_uninit())) as Some).0 as SaveEnd).0) as Pair).right_index as usize) < len(new())"):
+        "right_index was set by SaveRightIndex to r.len() just before the right child was parsed, so it indexes an existing entry when SaveEnd runs",
+    ("serde::de_tree::parse_triples", "((pop(box_assume_init_into_vec_unsafe(new_uninit())) as Some).0 as SaveRightIndex).0 < len(new())"):
+        "SaveRightIndex(index) is pushed with the index of a pair already in r",
+    ("serde::parse_atom::decode_size_with_offset", "0 < len(index_mut((8,), RangeTo((leading_ones(initial_b) as usize))))"):
+        "initial_b & 0x80 != 0 was tested just above (explicit error return), so leading_ones() >= 1; < 8 is tested too",
+    ("serde::parse_atom::decode_size_with_offset", "1 <= len(size_blob)"): "same: the prefix length is at least 1",
+    ("serde::parse_atom::parse_atom_ptr", "(position(f) as usize) <= len(get_ref(f))"): CURSOR_INV,
+    ("serde::parse_atom::parse_atom_ptr", "no wrap: (position(f) as usize) - 1 >= 0"): "the caller has just read first_byte from this cursor, so the position is at least 1",
+    ("serde::tools::tree_hash_from_stream", "(position(f) as usize) <= len(get_ref(f))"): CURSOR_INV,
+}
 SMALL_ATOM = "the value of an inline small atom is < 2^26 (NodePtr index mask, C14 R14b), so len_for_value() <= 4"
 AUDITED_INDEX_PATTERNS = [
     # (function, regex on the normalised goal, reason)
@@ -166,6 +188,64 @@ def storage_invariant(obj_types):
     return inv
 
 
+def reach_fns(cr, roots):
+    missing = [r for r in roots if r not in cr.fns]
+    if missing:
+        raise mir.AnchorMissing("root function(s) not found: " + ", ".join(missing))
+    return sorted(p for p in cr.reachable(roots) if p in cr.fns and not is_test_fn(cr.fns[p]))
+
+
+def check_bounds(ck, cr, rule, fn_paths):
+    """decide every indexing / division site of the given functions (rule id `rule`); returns (counts, number of sites)"""
+    obj_types = {}
+    for p, f in cr.fns.items():
+        if not p.startswith("allocator::"):
+            continue
+        for b in f.reachable_blocks():
+            for stt in f.stmts(b):
+                rv = stt.get("rv", {})
+                if "discr" in rv and (rv.get("enum") or "").endswith("ObjectType"):
+                    obj_types = {int(v): n for v, n in rv["variants"]}
+    inv = storage_invariant(obj_types)
+    counts = {"proved": 0, "storage invariant": 0, "audited": 0}
+    n_sites = 0
+    for p in fn_paths:
+        f = cr.fns[p]
+        pr = None
+        seen = {}
+        for b, kind in Prover(f, cr).sites():
+            pr = pr or Prover(f, cr)
+            n_sites += 1
+            use_inv = inv if p.startswith("allocator::Allocator::") else None
+            try:
+                r = pr.check_site(b, use_inv)
+            except RecursionError:
+                r = {"goals": [("analysis gave up (expression too deep)", False, "", None)], "facts": []}
+            for text, ok, g, how in r["goals"]:
+                nt = norm_text(text)
+                o = seen.get(nt, 0)
+                seen[nt] = o + 1
+                kk = f"{p}|{nt}" + (f" #{o}" if o else "")
+                if ok:
+                    counts["storage invariant" if how == "storage invariant" else "proved"] += 1
+                    ck.ob(rule, kk, True, f"in bounds ({how})", site=f.where(b), detail={"how": how})
+                    continue
+                reason = AUDITED_INDEX.get((p, nt)) or DECODER_AUDITS.get((p, nt))
+                if reason is None:
+                    for fp, rx, why in AUDITED_INDEX_PATTERNS:
+                        if fp == p and re.match(rx, nt):
+                            reason = why
+                if reason is not None:
+                    counts["audited"] += 1
+                    ck.ob(rule, kk, True, "in bounds by an audited invariant", site=f.where(b), detail={"audit": reason})
+                else:
+                    ck.ob(rule, kk, False, f"cannot show: {nt}", site=f.where(b), detail={"goal": g, "facts": r["facts"][-10:]})
+        if pr is not None:
+            ck.analysed(f)
+    ck.info(f"{rule}: indexing / division goals: {counts}")
+    return counts, n_sites
+
+
 def run(ctx):
     ck = ctx.check
     cr = ctx.crate("default")
@@ -264,51 +344,7 @@ def run(ctx):
     ck.floor("functions constructing InternalError", len(internal), 7)
 
     # ------------------------------------------------------------------ R25d
-    obj_types = {}
-    for p in reach:
-        f = cr.fns[p]
-        for b in f.reachable_blocks():
-            for stt in f.stmts(b):
-                rv = stt.get("rv", {})
-                if "discr" in rv and (rv.get("enum") or "").endswith("ObjectType"):
-                    obj_types = {int(v): n for v, n in rv["variants"]}
-    inv = storage_invariant(obj_types)
-    counts = {"proved": 0, "storage invariant": 0, "audited": 0}
-    n_sites = 0
-    for p in reach:
-        f = cr.fns[p]
-        pr = None
-        seen = {}
-        for b, kind in Prover(f, cr).sites():
-            pr = pr or Prover(f, cr)
-            n_sites += 1
-            use_inv = inv if p.startswith("allocator::Allocator::") else None
-            try:
-                r = pr.check_site(b, use_inv)
-            except RecursionError:
-                r = {"goals": [("analysis gave up (expression too deep)", False, "", None)], "facts": []}
-            for text, ok, g, how in r["goals"]:
-                nt = norm_text(text)
-                o = seen.get(nt, 0)
-                seen[nt] = o + 1
-                kk = f"{p}|{nt}" + (f" #{o}" if o else "")
-                if ok:
-                    counts["storage invariant" if how == "storage invariant" else "proved"] += 1
-                    ck.ob("R25d", kk, True, f"in bounds ({how})", site=f.where(b), detail={"how": how})
-                    continue
-                reason = AUDITED_INDEX.get((p, nt))
-                if reason is None:
-                    for fp, rx, why in AUDITED_INDEX_PATTERNS:
-                        if fp == p and re.match(rx, nt):
-                            reason = why
-                if reason is not None:
-                    counts["audited"] += 1
-                    ck.ob("R25d", kk, True, "in bounds by an audited invariant", site=f.where(b), detail={"audit": reason})
-                else:
-                    ck.ob("R25d", kk, False, f"cannot show: {nt}", site=f.where(b), detail={"goal": g, "facts": r["facts"][-10:]})
-        if pr is not None:
-            ck.analysed(f)
-    ck.info(f"indexing / division goals: {counts}")
+    counts, n_sites = check_bounds(ck, cr, "R25d", reach)
     ck.floor("indexing and division sites", n_sites, 85)
     ck.floor("goals proved without an audit", counts["proved"] + counts["storage invariant"], 85)
 
